@@ -14,6 +14,7 @@ mod lin;
 mod scn_cont;
 mod scn_ctl;
 mod scn_exec;
+mod scn_held;
 mod scn_hist;
 mod scn_multi;
 mod scn_own;
@@ -30,6 +31,8 @@ const RULE_T: &str = "one evaluation = one simulated run (workload, sizes, fault
 const RULE_D: &str = "one evaluation = one simulated run under virtual time (tokio current-thread runtime with paused clock; workload, delays, limits, timeouts and the instants of close/cancel all drawn from run_seed = f(VERIF_SEED, property, run index)); the runtime is deterministic, so distinct = distinct generated workloads (hash of all workload parameters, counted with a hash set merged across workers); non-trivial = at least two pipeline items";
 
 const RULE_H: &str = "one evaluation = one single-threaded history (op sequence, channel kind, sizes, sequence origin all drawn from run_seed = f(VERIF_SEED, property, run index)) executed step by step against an executable reference model, and a second time from a sequence origin next to the u32 wrap where the scenario says so; distinct = distinct histories (hash of all parameters, hash set merged across workers); non-trivial = at least three operations";
+
+const RULE_TH: &str = "two scenario families. (T) one evaluation = one simulated run (workload, sizes, fault rates and schedule all drawn from run_seed = f(VERIF_SEED, property, run index)); non-trivial = the scheduler preempted a thread inside an operation at least once; distinct = distinct context-switch signatures (hash of the sequence of (from-thread, to-thread, code site) over all context switches of the run). (H) one evaluation = one single-threaded history executed step by step against an executable reference model; non-trivial = at least three operations; distinct = distinct histories (hash of all parameters). Both counted with hash sets merged across workers and summed";
 
 struct PropertyCheck {
     parts: Vec<Box<dyn PartRunner>>,
@@ -69,7 +72,7 @@ fn registry(property: &str) -> Option<PropertyCheck> {
         "C10" => PropertyCheck { parts: vec![Box::new(Part(Arc::new(scn_hist::Hist { property: "C10", flavour: scn_hist::Flavour::Lifetimes })))], rule: RULE_H, quick_s: 20, thorough_s: 600, assumptions: vec![], checked_build: false },
         "C15" => PropertyCheck { parts: vec![Box::new(Part(Arc::new(scn_hist::Hist { property: "C15", flavour: scn_hist::Flavour::WrapAround })))], rule: RULE_H, quick_s: 20, thorough_s: 600, assumptions: vec![], checked_build: true },
         "C16" => PropertyCheck { parts: vec![Box::new(Part(Arc::new(scn_hist::Hist { property: "C16", flavour: scn_hist::Flavour::Rejections })))], rule: RULE_H, quick_s: 20, thorough_s: 600, assumptions: vec![], checked_build: false },
-        "C05" => PropertyCheck { parts: vec![Box::new(Part(Arc::new(scn_hist::Hist { property: "C05", flavour: scn_hist::Flavour::Teardown })))], rule: RULE_H, quick_s: 20, thorough_s: 600, assumptions: vec![], checked_build: false },
+        "C05" => PropertyCheck { parts: vec![Box::new(Part(Arc::new(scn_hist::Hist { property: "C05", flavour: scn_hist::Flavour::Teardown }))), Box::new(Part(Arc::new(scn_held::HeldConc)))], rule: RULE_TH, quick_s: 40, thorough_s: 900, assumptions: vec![], checked_build: false },
         "C09" => PropertyCheck { parts: vec![Box::new(Part(Arc::new(scn_multi::C09)))], rule: RULE_T, quick_s: 25, thorough_s: 900, assumptions: vec![], checked_build: false },
         "C17" => PropertyCheck { parts: vec![Box::new(Part(Arc::new(scn_multi::C17)))], rule: RULE_T, quick_s: 25, thorough_s: 900, assumptions: vec![], checked_build: false },
         "C07" => PropertyCheck { parts: vec![Box::new(Part(Arc::new(scn_ctl::Cancel)))], rule: RULE_T, quick_s: 30, thorough_s: 900, assumptions: vec![], checked_build: false },
